@@ -14,13 +14,40 @@ def mkey_of(ma):
     return (ma.class_name, ma.name, nosp(ma.descriptor))
 
 
-def analyse(datas, before_xref=None):
+def early_look(dx, rng):
+    """what a script does with a freshly parsed DEX before any analysis exists: look at the first instruction(s) of a few methods, ask for one offset"""
+    n = 0
+    for em in dx.get_encoded_methods():
+        code = em.get_code()
+        if code is None or rng.random() < 0.4:
+            continue
+        k = rng.randrange(4)
+        try:
+            if k == 0:
+                next(iter(em.get_instructions()), None)
+            elif k == 1:
+                for j, ins in enumerate(em.get_instructions()):
+                    if j >= rng.randrange(1, 4):
+                        break
+            elif k == 2:
+                code.get_bc().get_ins_off(rng.choice([0, 2, 4]))
+            else:
+                code.get_bc().off_to_pos(rng.choice([0, 2, 4]))
+            n += 1
+        except Exception:
+            pass
+    return n
+
+
+def analyse(datas, before_xref=None, look_rng=None):
     from androguard.core import dex
     from androguard.core.analysis.analysis import Analysis
     an = Analysis()
     dxs = []
     for d in datas:
         dx = dex.DEX(d)
+        if look_rng is not None:
+            early_look(dx, look_rng)
         an.add(dx)
         dxs.append(dx)
     if before_xref:
@@ -377,7 +404,12 @@ def shard(ctx, arg):
                                 em.set_name("renamedByTheCheck")
                                 ctx.count("methods_renamed_before_create_xref")
                                 return
-            an, dxs = analyse(datas, hook)
+            look = None
+            if rng.random() < 0.25:
+                look = rng
+                wit["history"] = "first instructions of some methods were looked at before the Analysis was built"
+                ctx.count("analyses_after_an_early_partial_look")
+            an, dxs = analyse(datas, hook, look)
         except Exception as e:
             ctx.violation("analysis-raises", "Analysis.add/create_xref raises on generated valid code", dict(wit, exc=exc_str(e)))
             continue
